@@ -340,6 +340,29 @@ def o_cross_process(case):
     return None
 
 
+@oracle
+def o_proto(case):
+    """several processes sharing the cache directory, any interleaving of their file-system steps: no operation raises,
+    a hit returns exactly what was stored for that key, no half-written entry is ever visible"""
+    from props import C15proto
+    steps = [tuple(s) for s in case["steps"]]
+    out = C15proto.run_real(steps, os.getcwd())
+    toks = out.split(" | ")[0].split()[1:]
+    for i, (s, t) in enumerate(zip(steps, toks)):
+        if t == "fail":
+            return fail("C15/concurrent/fatal", "step %d %s of an interleaving of several processes sharing the cache directory raises" % (i, list(s)),
+                        None, "no exception", out, 0)
+        if t == "stuck":
+            return fail("C15/concurrent/stuck", "step %d %s did not complete" % (i, list(s)), None, "completes", out, 0)
+        if s[0] == "G" and t.startswith("hit:"):
+            if t == "hit:garbled" or int(t[4:]) // 10 != s[2]:
+                return fail("C15/concurrent/wrong-hit", "a lookup of key %d returned an entry that was not stored for it (step %d)" % (s[2], i), None,
+                            "a result stored for key %d" % s[2], t, 0)
+    if "=torn" in out.split(" | ")[1]:
+        return fail("C15/concurrent/torn-entry", "a half-written entry is visible under a final name", None, "complete entries only", out, 0)
+    return None
+
+
 def seed_mix(rng):
     return int(rng.integers(3))
 
@@ -416,8 +439,21 @@ def run(rng, tier, deep):
     for k in range(budget(tier, deep, 2, 8)):
         h = [o for o in gen_history(rng, V, 6) if o[0] in ("R", "X")]
         run_oracle(st, o_cross_process, dict(ops=[list(o) for o in h], clean=True))
+    # concurrency: interleavings of the write protocol's micro-steps across processes, model vs real code + oracle
+    from props import C15proto
+    plans = [list(p) for p in C15proto.FIXED] + [C15proto.gen_steps(rng, int(rng.integers(4, 14))) for _ in range(budget(tier, deep, 12, 120))]
+    pouts = run_driver([C15proto.model_line(p) for p in plans])
+    for p, mo in zip(plans, pouts):
+        st["corr_cases"] += 1
+        ro = C15proto.run_real(p, os.getcwd())
+        for s_ in p:
+            st["branches"]["proto=" + s_[0]] = st["branches"].get("proto=" + s_[0], 0) + 1
+        if ro.split() != mo.split():
+            st["disagreements"].append(dict(what="cache write protocol under interleaving: impl `%s` vs model `%s`" % (ro[:300], mo[:300]),
+                                            op=C15proto.model_line(p)[:600]))
+        run_oracle(st, o_proto, dict(steps=[list(x) for x in p]))
     return finish(st, "histories over the base request and EVERY single-argument variation (the solver signature is enumerated with inspect.signature), "
                   "default and explicit halo, restarts (new cache object on the same directory), stores interrupted after a prefix of the bytes, entries "
-                  "truncated from outside, two-process histories; correspondence: hit/miss/error trace of every request vs the Lean state machine driven "
+                  "truncated from outside, two-process histories, interleavings of the write protocol's file-system steps (savez starts / completes, os.replace, constructor, lookup, process death) across up to four emulated processes sharing the directory; correspondence: hit/miss/error trace of every request vs the Lean state machine driven "
                   "with the cache configuration extracted from the source; oracle: answer bit-identical to the uncached solve, repeat = hit, every truncation "
                   "class (thorough: every byte length) of a stored entry = miss without exception", deep, 0)
